@@ -4,7 +4,7 @@
 export PATH=/opt/veriftools/go1.26.8/bin:$PATH GOFLAGS=-mod=mod GOPROXY=off GOSUMDB=off GOTOOLCHAIN=local
 while [ $# -ge 1 ]; do
   name=$1; shift 1
-  pkgdir=$(head -1 /tmp/mut3_out/$name/notes.md | sed -e "s/^pkgdir:[ ]*//" -e "s#^\./##" -e "s#/$##" -e "s/\`//g")
+  pkgdir=$(head -1 /tmp/mut3_out/$name/notes.md | sed -e 's/^pkgdir:[ ]*//' -e 's#^\./##' -e 's#/$##' | tr -d '` ')
   id=${name%-*}
   src=/tmp/mut3_out/$name
   dst=/verif/seeded/R3-$name
